@@ -209,7 +209,7 @@ let cfg_of_string s =
   else (* bit string in field order *)
     let b i = s.[i] = '1' in
     { d_replay_shadow = b 0; d_clear_replay = b 1; d_iter_max = b 2; d_id_reuse = b 3;
-      d_double_close = b 4; d_sizeof_untracked = b 5; d_meta_seqno = b 6 }
+      d_double_close = b 4; d_sizeof_untracked = b 5; d_seqno_journal = b 6 }
 
 let read_lines file = let ic = open_in file in
   let rec go acc = match input_line ic with l -> go (l :: acc) | exception End_of_file -> close_in ic; List.rev acc in go []
